@@ -326,3 +326,15 @@ m("c19_subvalue_mutates_values", "C19", "qubovert/utils/_subgraph.py", """    D 
         if not isinstance(k, tuple):
             raise ValueError("Keys must be tuples")
         key = tuple(filter(lambda x: x not in values, k))""")
+
+# ---------------------------------------------------------------- fault-inside-operation mutants
+m("c13_extend_not_exception_safe", "C13", AR, """        else:
+            for x in other:
+                self.append(x)""", """        else:
+            super().extend(other)
+            self.best = _recompute_best(self)""")
+m("c19_solve_offset_restored_late", "C19", SB, """            return offset, ({} if not all_solutions else [{}])
+        D[()] = offset""", """            return offset, ({} if not all_solutions else [{}])
+        D[()] = offset
+        D.pop(())
+        valid_, valid = valid, (lambda x, _D=D, _o=offset: (_D.__setitem__((), _o), valid_(x), _D.pop(()))[1])""", expect="maybe")
